@@ -116,7 +116,7 @@ theorem syncOne_delete_keep (sp : Sys) (jo : JobObj) (s' : Sys) (rjF : Job) (nt 
         else s', true) := by
   unfold syncOne
   simp only [hc, hsync, hadm, hfz, ne_eq, not_true_eq_false, decide_false, Bool.or_self, Bool.false_eq_true, ↓reduceIte,
-    Bool.not_true]
+    Bool.not_true, statusBase_false]
   by_cases hd : (decide (¬ rjF.status = jo.job.status) || nt) = true
   · have e : ({ name := jo.name, uid := jo.uid, job := rjF, finalizer := true, rv := jo.rv } : JobObj) = { jo with job := rjF } := by
       cases jo; simp only at hfz; subst hfz; rfl
@@ -136,7 +136,11 @@ theorem syncOne_delete_drop (sp : Sys) (jo : JobObj) (s' : Sys) (rjF : Job) (nt 
   simp only [hc, hsync, hfz, apiUpdateJob_drop_eq s' jo rjF hnf hj hfz hdel]
   simp only [ne_eq, Bool.false_eq_true, not_false_eq_true, decide_true, Bool.or_true, ↓reduceIte, Bool.not_true]
   by_cases hd : (decide (¬ rjF.status = jo.job.status) || nt) = true
-  · simp only [hd, ↓reduceIte, apiUpdateJobStatus_absent_eq (droppedK s' jo rjF) jo _ hnfd rfl, Bool.not_false]
+  · -- the status write carries the resourceVersion `Update` returned, and is answered NotFound all the same
+    have hab : ∀ new, apiUpdateJobStatus (droppedK s' jo rjF) (statusBase (droppedK s' jo rjF) jo true) new =
+        (absentK (droppedK s' jo rjF) jo, false) :=
+      fun new => apiUpdateJobStatus_absent_eq (droppedK s' jo rjF) _ new hnfd rfl
+    simp only [hd, ↓reduceIte, hab, Bool.not_false]
   · simp only [hd, Bool.false_eq_true, ↓reduceIte, Bool.not_true]
 
 end Furiko.JobCtl.Live
